@@ -1,7 +1,7 @@
 (** C11 — Rewrites leave no orphans and references follow.
     Model: Model/RepoV.v (lib/src/repo.rs rebase_descendants_with_options and helpers,
     lib/src/rewrite.rs, lib/src/refs.rs, lib/src/commit_builder.rs). *)
-From Verif Require Import Base.Prelude Base.DagV Model.Merge Model.RepoV Model.C11 Proofs.C10 Proofs.C11 Proofs.C11Loop Proofs.C11View Proofs.C11Follow Proofs.C11Order Proofs.C10Rebase.
+From Verif Require Import Base.Prelude Base.DagV Model.Merge Model.RepoV Model.C11 Proofs.C10 Proofs.C11 Proofs.C11Loop Proofs.C11View Proofs.C11Follow Proofs.C11Order Proofs.C10Rebase Proofs.C11Unique.
 
 (** rewritten_ids_with (new_parents is the instance that skips divergent records) never runs out
     of the stated fuel, whatever the mapping (cyclic or not): every key is expanded once. *)
@@ -289,12 +289,112 @@ Theorem C11_wc_root_witness :
   known_wc_root (model_case wc_root_ops) = true.
 Proof. vm_compute. auto. Qed.
 
-(** The full statement for the model: for every operation sequence ending in a rebase whose
-    records are in the domain, the model's own result satisfies every
-    clause of the checker. *)
-Definition C11_full : Prop :=
-  forall ops, in_domain (model_case ops) = true -> known_wc_root (model_case ops) = false ->
-    okb (model_case ops) = true.
+(** Change ids: after rebase_descendants two distinct visible commits that are not kept in place on
+    purpose share a change id only if two distinct commits of that change WITHOUT rewrite record
+    were already visible before (a pre-existing divergence; this includes the two new commits of a
+    recorded divergent rewrite). Side conditions (the boolean [uniq_dom_ok], evaluated per case):
+    commits with a record and immutable commits are visible, there is a head, change ids are
+    numbered by first occurrence. Any dependency-respecting ordering. *)
+Theorem C11_change_id_unique : forall (s0 : state) (o : rebase_opts) ord (s' : state),
+  J s0 ->
+  (forall k r t, In (k, r) (s_pm s0) -> In t (new_parent_ids r) -> In t (scope s0 (o_imm o))) ->
+  (forall name t, In (name, t) (v_bms (s_v s0)) -> Nat.odd (length t) = true) ->
+  pm_get (s_pm s0) 0 = None ->
+  uniq_dom_ok s0 o = true ->
+  (forall order, ord (s_g s0) (s_pm s0) (find_descendants_for_rebase s0 (o_imm o)) = Ok order ->
+     valid_from s0 o [] order /\ forall x, In x (find_descendants_for_rebase s0 (o_imm o)) -> In x order) ->
+  rebase_descendants_with ord s0 o = Ok s' ->
+  exists s1, rebase_loop_with ord s0 o = Ok s1 /\
+    let sh := ancs (pg (s_g s')) (o_imm o ++ div_keys (s_pm s1)) in
+    forall x y, x <> y ->
+      covered (pg (s_g s')) (v_heads (s_v s')) x -> covered (pg (s_g s')) (v_heads (s_v s')) y ->
+      ~ In x sh -> ~ In y sh ->
+      c_change (getc (s_g s') x) = c_change (getc (s_g s') y) ->
+      exists a b, a <> b /\ a < length (s_g s0) /\ b < length (s_g s0) /\
+        covered (pg (s_g s0)) (v_heads (s_v s0)) a /\ covered (pg (s_g s0)) (v_heads (s_v s0)) b /\
+        pm_get (s_pm s0) a = None /\ pm_get (s_pm s0) b = None /\
+        c_change (getc (s_g s0) a) = c_change (getc (s_g s') x) /\
+        c_change (getc (s_g s0) b) = c_change (getc (s_g s') x).
+Proof.
+  intros s0 o ord s' J0 Dom Odd Root U Hord H.
+  destruct (uniq_dom_ok_spec s0 o (j_wf _ J0) U) as [VK [VI [HNE Chg]]].
+  exact (change_id_unique_model s0 o ord s' J0 Dom Odd Root VK VI HNE Chg Hord H).
+Qed.
+
+(** THE FULL STATEMENT for the modelled rebase_descendants (the implementation's ordering), from
+    boolean side conditions only: the state invariant, the domain check [dom_ok], the side
+    condition [uniq_dom_ok] of the change-id clause, odd-arity bookmark targets and distinct
+    bookmark / workspace names. Whenever rebase_descendants returns (i.e. outside the known class
+    wc-resolves-to-root, where it panics): no orphans, identity kept, bookmarks follow, working
+    copies follow, change ids unique. *)
+Theorem C11_full : forall (s0 : state) (o : rebase_opts) (s' : state),
+  J s0 -> dom_ok s0 o = true -> uniq_dom_ok s0 o = true ->
+  (forall name t, In (name, t) (v_bms (s_v s0)) -> Nat.odd (length t) = true) ->
+  NoDup (map fst (v_bms (s_v s0))) -> NoDup (map fst (v_wcs (s_v s0))) ->
+  rebase_descendants s0 o = Ok s' ->
+  exists s1 mapping,
+    rebase_loop s0 o = Ok s1 /\ resolve_rewrite_mapping (s_pm s1) (fun _ => true) = Ok mapping /\
+    let T := find_descendants_for_rebase s0 (o_imm o) in
+    let sh := ancs (pg (s_g s')) (o_imm o ++ div_keys (s_pm s1)) in
+    (* no orphans *)
+    (forall x, covered (pg (s_g s')) (v_heads (s_v s')) x -> ~ In x sh ->
+       ~ Tainted (pg (s_g s')) (nd_keys (s_pm s1)) sh x) /\
+    (* identity kept *)
+    (length (s_g s0) <= length (s_g s') /\
+     (forall i, i < length (s_g s0) -> getc (s_g s') i = getc (s_g s0) i) /\
+     forall y, length (s_g s0) <= y < length (s_g s') ->
+       let c := getc (s_g s') y in
+       (exists x, c_preds c = [x] /\ In x T /\
+                  c_change c = c_change (getc (s_g s0) x) /\ c_desc c = c_desc (getc (s_g s0) x))
+       \/ (c_preds c = [] /\ c_change c = N.of_nat y /\ c_desc c = 0%N /\ c_empty c = true)) /\
+    (* bookmarks follow *)
+    (forall name k, aget N.eqb name (v_bms (s_v s0)) = Some [Some k] ->
+       match aget Nat.eqb k mapping with
+       | Some nids =>
+           rewritten_ids_with (s_pm s1) (fun _ => true) [k] = Ok nids /\
+           bm_get (s_v s') name =
+             (if o_delete_abandoned o && is_abandoned (pm_get (s_pm s1) k) then absent_target
+              else intersperse (map Some nids) (Some k))
+       | None => bm_get (s_v s') name = [Some k]
+       end) /\
+    (* working copies follow *)
+    (forall ws k, aget N.eqb ws (v_wcs (s_v s0)) = Some k ->
+       match aget Nat.eqb k mapping with
+       | Some nids =>
+           rewritten_ids_with (s_pm s1) (fun _ => true) [k] = Ok nids /\
+           exists c, wc_get (s_v s') ws = Some c /\
+             if is_abandoned (pm_get (s_pm s1) k)
+             then length (s_g s1) <= c /\ c_parents (getc (s_g s') c) = nids /\ c_preds (getc (s_g s') c) = []
+             else c = hd 0 nids
+       | None => wc_get (s_v s') ws = Some k
+       end) /\
+    (* change ids unique *)
+    (forall x y, x <> y ->
+       covered (pg (s_g s')) (v_heads (s_v s')) x -> covered (pg (s_g s')) (v_heads (s_v s')) y ->
+       ~ In x sh -> ~ In y sh ->
+       c_change (getc (s_g s') x) = c_change (getc (s_g s') y) ->
+       exists a b, a <> b /\ a < length (s_g s0) /\ b < length (s_g s0) /\
+         covered (pg (s_g s0)) (v_heads (s_v s0)) a /\ covered (pg (s_g s0)) (v_heads (s_v s0)) b /\
+         pm_get (s_pm s0) a = None /\ pm_get (s_pm s0) b = None /\
+         c_change (getc (s_g s0) a) = c_change (getc (s_g s') x) /\
+         c_change (getc (s_g s0) b) = c_change (getc (s_g s') x)).
+Proof.
+  intros s0 o s' J0 Dom U Odd NDb NDw H.
+  destruct (dom_ok_facts s0 o (j_wf _ J0) Dom) as [[rank Hr] [Tg Root]].
+  assert (Hord : forall order, order_commits_for_rebase (s_g s0) (s_pm s0) (find_descendants_for_rebase s0 (o_imm o)) = Ok order ->
+            valid_from s0 o [] order /\ forall x, In x (find_descendants_for_rebase s0 (o_imm o)) -> In x order).
+  { intros order EO. exact (order_commits_valid s0 o rank Hr order EO). }
+  destruct (no_orphans_model s0 o order_commits_for_rebase s' J0 Tg Odd Root Hord H) as [s1 [E1 NO]].
+  destruct (bookmarks_follow_model s0 o order_commits_for_rebase s' NDb H) as [s1b [mapping [E1b [EM BF]]]].
+  destruct (wc_follows_model s0 o order_commits_for_rebase s' NDw H) as [s1w [mappingw [E1w [EMw WF]]]].
+  destruct (C11_change_id_unique s0 o order_commits_for_rebase s' J0 Tg Odd Root U Hord H) as [s1u [E1u CU]].
+  unfold rebase_loop in *. rewrite E1 in E1b, E1w, E1u.
+  apply Ok_inj in E1b. apply Ok_inj in E1w. apply Ok_inj in E1u. subst s1b s1w s1u.
+  rewrite EM in EMw. apply Ok_inj in EMw. subst mappingw.
+  exists s1, mapping. split; [exact E1|]. split; [exact EM|].
+  split; [exact NO|]. split; [exact (identity_model s0 o order_commits_for_rebase s' J0 Tg Odd Hord H)|].
+  split; [exact BF|]. split; [exact WF|exact CU].
+Qed.
 
 Example C11_nonvacuous :
   let c := model_case
@@ -316,6 +416,8 @@ Print Assumptions C11_no_orphans_rebase_descendants.
 Print Assumptions C11_no_orphans_in_domain.
 Print Assumptions C11_cycle_detected.
 Print Assumptions C11_reachable_states_invariant.
+Print Assumptions C11_change_id_unique.
+Print Assumptions C11_full.
 Print Assumptions C11_identity_kept.
 Print Assumptions C11_bookmarks_follow.
 Print Assumptions C11_wc_follows.
